@@ -683,6 +683,8 @@ def _slice_len(dim, sl):
     lo_p = pos(lo, LinExpr(0))
     up_p = pos(up, dim)
     if lo_p is None or up_p is None:
+        if isinstance(sl.note, tuple) and sl.note and sl.note[0] == "span" and (stp is None or stp.kind == K_NONE):
+            return sl.note[1]           # x[a:a + k]
         return None
     return up_p - lo_p
 
